@@ -155,7 +155,7 @@ def finish(prop, tier, seed, results, t0, *, bounds, stubs, assumptions, outside
     """aggregate task results, write evidence, print verdict lines, return exit code"""
     agg = dict(paths=0, decisions=0, queries=0, solver_time=0.0, obligations=0, discharged=0,
                inconclusive=0, validated=0)
-    violations, known, errors, samples, funcs, why, vac = [], [], [], [], set(), [], []
+    violations, known, errors, samples, funcs, why, vac, notes = [], [], [], [], set(), [], [], []
     for r in results:
         for k in agg:
             key = {'paths': 'paths'}.get(k, k)
@@ -167,6 +167,7 @@ def finish(prop, tier, seed, results, t0, *, bounds, stubs, assumptions, outside
         samples += r.get('samples', [])[:2]
         funcs.update(r.get('functions', []))
         why += r.get('inconclusive_why', [])
+        notes += [n_ for n_ in r.get('notes', []) if 'paths explored' in n_ or 'skipped' in n_]
         vac += r.get('vacuity', [])
     ss = dict(queries=0, agree=0, disagree=[])
     for r in results:
@@ -213,7 +214,7 @@ def finish(prop, tier, seed, results, t0, *, bounds, stubs, assumptions, outside
         inconclusive=agg['inconclusive'], queries=agg['queries'],
         solver_time_s=round(agg['solver_time'], 3),
         functions_encoded=sorted(funcs), bounds=bounds, outside_claim=outside, stubs=stubs,
-        tasks=len(results), known_findings_reported=len(seen),
+        tasks=len(results), known_findings_reported=len(seen), partially_explored_or_skipped_generated_programs=notes[:40],
         exhaustive=False,
         explanation='bounded symbolic execution of the real functions (symx proxies over z3 QF_BV); '
                     'states = feasible paths, transitions = symbolic branch decisions',
